@@ -224,3 +224,28 @@ pub fn apply_char(s: &str, pos: usize, c: char, replace: bool) -> Option<String>
     out.push_str(&s[if replace { pos + 1 } else { pos }..]);
     Some(out)
 }
+
+/// ASN.1 DER `SEQUENCE { INTEGER r, INTEGER s }` of a 64-byte raw ECDSA signature, base64url.
+pub fn ecdsa_sig_to_der_b64(sig_b64: &str) -> Option<String> {
+    let raw = b64d(sig_b64).ok()?;
+    if raw.len() != 64 {
+        return None;
+    }
+    let int = |x: &[u8]| -> Vec<u8> {
+        let mut v: Vec<u8> = x.iter().copied().skip_while(|b| *b == 0).collect();
+        if v.is_empty() {
+            v.push(0);
+        }
+        if v[0] & 0x80 != 0 {
+            v.insert(0, 0);
+        }
+        let mut out = vec![0x02, v.len() as u8];
+        out.extend(v);
+        out
+    };
+    let mut body = int(&raw[..32]);
+    body.extend(int(&raw[32..]));
+    let mut der = vec![0x30, body.len() as u8];
+    der.extend(body);
+    Some(b64e(&der))
+}
